@@ -71,7 +71,18 @@ NUMERIC_TEXT = {("CompuConst", "v"): "xsd:double", ("CompuDefaultValue", "v"): "
 # also with strict_mode off, and the document is written faithfully)
 INADMISSIBLE = {
     ("LinkedDtcDop.dtc_dop_ref.ref_id", "retarget"): "NOT-INHERITED-DTC-SNREFS name DTCs of the linked DTC-DOP; another target does not have them",
+    ("ComparamSubset.category", "empty"): "the parser takes a COMPARAM-SUBSET with an empty CATEGORY for an ODX 2.0 COMPARAM-SPEC (`if category`), which changes "
+                                          "the document type of every ID in it: such a document cannot be loaded in the first place",
     ("TableKeyParameter.table_row_snref", "set"): "TABLE-ROW-SNREF without a table: the parser cannot resolve it (AttributeError '_table')",
+}
+# string fields whose VALUE is used by encoding / decoding / matching: '' and absent are different things there
+EMPTY_MATTERS = {
+    "physical_default_value_raw": "an empty default makes the parameter optional (is_required), absent makes it required",
+    "physical_default_value": "default value of a communication / job parameter", "physical_constant_value_raw": "the constant of a PHYS-CONST parameter",
+    "coded_value": "the constant of a CODED-CONST parameter", "value_raw": "a limit", "vt": "text of a compu scale / default value",
+    "v": "value of a compu scale", "key_raw": "key of a table row", "termination_value_raw": "termination value of an end-marker field",
+    "expected_value": "value a variant pattern matches", "value": "value of a communication parameter / special data",
+    "text": "text of a DTC / description",
 }
 PRESENCE_FLAGS = {("EnvironmentData", "all_value"): "presence of the empty element ALL-VALUE: the parser yields None or True, never False"}
 CHOICE_GROUPS = {
@@ -155,12 +166,25 @@ def tmp_path(suffix: str) -> str:
     return os.path.join(scratch_dir(), f"c11_{os.getpid()}_{_TMPN[0]}{suffix}")
 
 
-def zip_members(members: Dict[str, bytes], order: Optional[Sequence[str]] = None) -> str:
+def zip_members(members: Dict[str, bytes], order: Optional[Sequence[str]] = None, case: str = "") -> str:
     p = tmp_path(".pdx")
     with zipfile.ZipFile(p, "w", compression=zipfile.ZIP_STORED) as z:
         for n in (order or list(members)):
-            z.writestr(n, members[n])
+            z.writestr(case_name(n, case), members[n])
     return p
+
+
+def case_name(name: str, case: str) -> str:
+    """File-name case variant of an ODX document / the catalog: '' as is, 'upper' (.ODX-D, INDEX.XML), 'mixed' (.Odx-d, Index.Xml).
+    Auxiliary files keep their names (they are referenced by name from PROG-CODE / LIBRARY)."""
+    if not case:
+        return name
+    stem, suf = os.path.splitext(name)
+    if is_odx(name):
+        return stem + (suf.upper() if case == "upper" else suf.capitalize())
+    if name.lower() == "index.xml":
+        return "INDEX.XML" if case == "upper" else "Index.Xml"
+    return name
 
 
 def read_members(path: str) -> Dict[str, bytes]:
@@ -182,9 +206,9 @@ def base_members(base: str, off: Sequence[str]) -> Dict[str, bytes]:
     return _MEMBERS[key]
 
 
-def load_from_members(members: Dict[str, bytes], order: Optional[Sequence[str]] = None) -> Any:
+def load_from_members(members: Dict[str, bytes], order: Optional[Sequence[str]] = None, case: str = "") -> Any:
     from odxtools.loadfile import load_pdx_file
-    p = zip_members(members, order)
+    p = zip_members(members, order, case)
     try:
         return load_pdx_file(p)
     finally:
@@ -229,13 +253,22 @@ def site_kinds(s: R.Site) -> List[Tuple[str, Optional[str]]]:
         if leaf == "ref_id":
             return [("retarget", None)]
         if leaf == "ref_docs":
-            return [("docref", None)]
+            return [("docref", None), ("docref-layer", None), ("docref-target", None)]
     for (c, f), why in DISCRIMINATOR.items():
         if f == s.field and c in owner_names:
             return [("any", "discriminator: " + why)]
     out: List[Tuple[str, Optional[str]]] = []
-    for k in R.kinds_of(s.value):
+    kinds = R.kinds_of(s.value)
+    if s.value is None and R.optional_arg(R.field_type(s.holder, s.attr)) is str:
+        kinds = kinds + ["empty"]  # Optional[str]: absent -> present but empty
+    for k in kinds:
         why = None
+        if k == "empty":
+            if NAME_LIKE.search(s.field):
+                why = "lexical domain: names, IDs and short-name references cannot be empty"
+            for (c, f), w in NUMERIC_TEXT.items():
+                if f == s.field and c in owner_names:
+                    why = "lexical domain: " + w
         if k == "flip":
             for (c, f), w in PRESENCE_FLAGS.items():
                 if f == s.field and c in owner_names:
@@ -476,6 +509,24 @@ def apply_perturbation(db: Any, root: Any, s: R.Site, kind: str, path: Sequence[
             object.__setattr__(holder, "ref_docs", [frags[0]])
             return "explicit DOCREF=" + frags[0].doc_name + " DOCTYPE=CONTAINER"
         raise Skip("reference already names its document explicitly")
+    if kind == "docref-layer":
+        frags = old
+        if len(frags) == 2 and frags[1].doc_type.value == "LAYER":
+            object.__setattr__(holder, "ref_docs", [frags[1]])
+            return "explicit DOCREF=" + frags[1].doc_name + " DOCTYPE=LAYER (the referrer's own layer)"
+        raise Skip("reference is not located in a layer or names its document already")
+    if kind == "docref-target":
+        tgt = db.odxlinks.resolve_lenient(holder)
+        if tgt is None or getattr(tgt, "odx_id", None) is None or not tgt.odx_id.doc_fragments:
+            raise Skip("reference has no resolvable target")
+        tfrag = tgt.odx_id.doc_fragments[-1]
+        if list(old) == [tfrag] or (len(old) == 2 and tfrag in list(old)):
+            raise Skip("the innermost document of the target is the referrer's own document / layer (kinds docref, docref-layer) or is named already")
+        object.__setattr__(holder, "ref_docs", [tfrag])
+        return f"explicit DOCREF={tfrag.doc_name} DOCTYPE={tfrag.doc_type.value} (innermost document of the target)"
+    if kind == "empty":
+        object.__setattr__(holder, attr, "")
+        return "''"
     if kind == "set":
         new = synth_value(db, root, s)
         if new is None:
@@ -662,6 +713,7 @@ class Outcome:
         self.db1: Any = None
         self.members: Optional[Dict[str, bytes]] = None
         self.reason = ""
+        self.dontcare = ""
 
 
 DERIVED_CLASSES = {"physical_type": ("CompuMethod",), "internal_type": ("CompuMethod",), "domain_type": ("CompuScale",), "range_type": ("CompuScale",),
@@ -757,6 +809,19 @@ def judge(db: Any, pert: Optional[Dict[str, Any]], with_behaviour_of_original: b
         if pert is not None and (pert["pair"].endswith(".base_data_type") or strict_error is not None) and any(d.pair == f"{c}.{f}" for c, f in TYPED_BY_BASE_TYPE):
             continue  # values typed by a BASE-DATA-TYPE the perturbation changed (or took from a donor of another type)
         mode = diff_mode(d, pair if meta else None)
+        if kind == "empty" and d.pair == pair and d.a == "''" and d.b == "None":
+            # the empty string came back as "absent": a finding where a consumer can tell the two apart
+            matters = EMPTY_MATTERS.get(d.field.split(".")[-1])
+            if matters is None and strict_error is None:
+                bd0 = behaviour_diff(behaviour(db), behaviour(db1))
+                if bd0 is not None and bd0[1] != pert.get("baseline_behaviour"):  # (a difference the unperturbed database shows too is not due to this field)
+                    matters = "encode/decode differs: " + bd0[1][:200]
+            if matters is None:
+                out.dontcare = "'' is written as absent and reloads as None; no consumer in odxtools distinguishes the two for this field"
+                continue
+            out.findings.append((f"C11/{diff_pair(d)}/dropped", f"at {list(d.path)}: wrote '' -- loaded back None ({matters})"))
+            out.where.setdefault(f"C11/{diff_pair(d)}/dropped", tuple(d.path))
+            continue
         out.findings.append((f"C11/{diff_pair(d)}/{mode}", f"at {list(d.path)}: wrote {d.a} -- loaded back {d.b}"))
         out.where.setdefault(f"C11/{diff_pair(d)}/{mode}", tuple(d.path))
     if strict_error is not None:
@@ -829,6 +894,7 @@ def first_difference(a: bytes, b: bytes) -> str:
 # work units
 # ---------------------------------------------------------------------------------------------
 _BASELINE_KEYS: Dict[str, set] = {}
+_BASELINE_BEH: Dict[str, Optional[str]] = {}
 
 
 def baseline_keys(base: str, off: Sequence[str]) -> set:
@@ -837,7 +903,9 @@ def baseline_keys(base: str, off: Sequence[str]) -> set:
     k = base + "|" + ",".join(off)
     if k not in _BASELINE_KEYS:
         db = load_base(base, off)
-        _BASELINE_KEYS[k] = {key for key, _ in judge(db, None, False).findings}
+        out = judge(db, None, True)
+        _BASELINE_KEYS[k] = {key for key, _ in out.findings}
+        _BASELINE_BEH[k] = next((d for key, d in reversed(out.findings) if key.startswith("C11/behaviour/")), None)
     return _BASELINE_KEYS[k]
 
 
@@ -928,9 +996,14 @@ def run_perturbation(base: str, off: Sequence[str], path: Sequence[Any], kind: s
     finally:
         ex.strict_mode = old_mode
     pair = f"{s.cls}.{s.field}"
-    out = judge(db, {"pair": pair, "kind": kind, "path": list(path), "new": new}, False)
+    known = baseline_keys(base, off)
+    out = judge(db, {"pair": pair, "kind": kind, "path": list(path), "new": new,
+                     "baseline_behaviour": _BASELINE_BEH.get(base + "|" + ",".join(off))}, False)
     if out.stage == "inadmissible":
         return "skip:" + out.reason, [], new
+    if out.dontcare:
+        known0 = baseline_keys(base, off)
+        return "dontcare:" + out.dontcare, [(k, d) for k, d in out.findings if k not in known0], new
     known = baseline_keys(base, off)
     findings = [(k, d) for k, d in out.findings if k not in known]
     # the perturbed field itself must come back
@@ -956,7 +1029,7 @@ def perturb_unit(unit: Tuple[str, Tuple[str, ...], str, str, str]) -> Part:
     pair = f"{cls}.{field}"
     last = "skip:no instance"
     done = False
-    for path in paths[:MAXCAND]:
+    for path in (paths if kind == "empty" else paths[:MAXCAND]):  # "empty": most instances are typed (numbers), take the first that admits ""
         status, findings, new = run_perturbation(base, off, path, kind)
         if status.startswith("skip:"):
             if not last.startswith("masked:"):
@@ -972,7 +1045,9 @@ def perturb_unit(unit: Tuple[str, Tuple[str, ...], str, str, str]) -> Part:
         if status.startswith("masked:"):
             last = status  # the instance sits below something the writer drops anyway: try the next instance
             continue
-        if any(k.startswith(f"C11/{pair}/") for k, _ in findings):
+        if status.startswith("dontcare:"):
+            last = status
+        elif any(k.startswith(f"C11/{pair}/") for k, _ in findings):
             last = "finding:" + sorted(k for k, _ in findings if k.startswith(f"C11/{pair}/"))[0]
         else:
             last = "survived" + (" (other findings: " + ",".join(sorted({k for k, _ in findings})) + ")" if findings else "")
@@ -1028,16 +1103,17 @@ def feature_key(feature: str) -> str:
 # ---------------------------------------------------------------------------------------------
 # member orders x entry points
 # ---------------------------------------------------------------------------------------------
-def load_how(members: Dict[str, bytes], order: Sequence[str], how: str) -> Any:
+def load_how(members: Dict[str, bytes], order: Sequence[str], how: str, case: str = "") -> Any:
     from odxtools import loadfile
     if how == "load_pdx_file":
-        return load_from_members(members, order)
+        return load_from_members(members, order, case)
     d = tmp_path(".dir")
     os.makedirs(d)
     try:
         for n in order:
-            with open(os.path.join(d, n), "wb") as f:
+            with open(os.path.join(d, case_name(n, case)), "wb") as f:
                 f.write(members[n])
+        order = [case_name(n, case) for n in order]
         if how == "load_files":
             return loadfile.load_files(*[os.path.join(d, n) for n in order])
         if how == "load_files(cwd)":  # bare file names, the directory being the current one
@@ -1109,14 +1185,15 @@ def order_unit(unit: Tuple[str, Tuple[str, ...], List[Tuple[Tuple[int, ...], int
     names = list(members)
     ref = load_from_members(members)
     ref_beh = behaviour(ref)
-    for perm, rot in chunk:
+    for perm, rot, fcase in chunk:
         order = member_order(names, perm, rot)
         for how in ENTRY_POINTS:
             part.count("evaluations")
             part.count("order_loads")
-            case = {"mode": "order", "base": base, "off": list(off), "perm": list(perm), "rot": rot, "how": how}
+            part.add("file_name_cases", fcase or "as written")
+            case = {"mode": "order", "base": base, "off": list(off), "perm": list(perm), "rot": rot, "how": how, "case": fcase}
             try:
-                db = load_how(members, order, how)
+                db = load_how(members, order, how, fcase)
             except Exception as e:
                 part.violation(f"C11/entrypoint/{how}/crash", case, f"[{base}] {how} raised {type(e).__name__}: {str(e)[:300]}")
                 part.add("order_outcomes", (how, "crash"))
@@ -1125,18 +1202,21 @@ def order_unit(unit: Tuple[str, Tuple[str, ...], List[Tuple[Tuple[int, ...], int
             for key, detail in probs:
                 part.violation(key, case, f"[{base} order {order[:8]}...] {detail}")
             part.add("order_outcomes", (how, "equal" if not probs else "differs"))
-            part.add("nontrivial", digest((base, tuple(perm), rot, how)))
+            part.add("nontrivial", digest((base, tuple(perm), rot, how, fcase)))
     return part
 
 
 def order_chunks(base: str, off: Tuple[str, ...], all_perms: bool, rotations: bool, nchunks: int) -> List[Any]:
     names = list(base_members(base, off))
     n_odx = len([n for n in names if is_odx(n)])
-    combos: List[Tuple[Tuple[int, ...], int]] = [(p, 0) for p in R.orders(n_odx, all_perms)]
+    combos: List[Tuple[Tuple[int, ...], int, str]] = [(p, 0, "") for p in R.orders(n_odx, all_perms)]
+    ident = tuple(range(n_odx))
     if rotations:
-        ident = tuple(range(n_odx))
-        combos += [(ident, r) for r in range(1, len(names))]
-        combos += [(tuple(reversed(ident)), r) for r in range(1, len(names))]
+        combos += [(ident, r, "") for r in range(1, len(names))]
+        combos += [(tuple(reversed(ident)), r, "") for r in range(1, len(names))]
+    # file-name case variants of the ODX documents and of index.xml (identity and reversed order, catalog first and last)
+    for fcase in ("upper", "mixed"):
+        combos += [(ident, 0, fcase), (tuple(reversed(ident)), 0, fcase), (ident, len(names) - 1, fcase)]
     size = max(1, (len(combos) + nchunks - 1) // nchunks)
     return [(base, off, combos[i:i + size]) for i in range(0, len(combos), size)]
 
@@ -1253,7 +1333,8 @@ def run(ctx: Ctx) -> None:
     ctx.extra["coverage_table"] = table
     ctx.extra["not_reachable_in_any_base"] = unreached_classes(all_pairs)
     ctx.bounds = {"bases": [b for b, _ in bases], "kitchen_sink_features_off": list(off), "max_instances_tried_per_pair": MAXCAND,
-                  "kinds": ["set", "flip", "inc", "next", "meta", "alt", "grow", "retarget", "docref"], "metacharacter_string": R.META,
+                  "kinds": ["set", "flip", "inc", "next", "meta", "alt", "empty", "grow", "retarget", "docref", "docref-layer", "docref-target"],
+                  "file_name_cases": ["as written", "upper (.ODX-D, INDEX.XML)", "mixed (.Odx-d, Index.Xml)"], "metacharacter_string": R.META,
                   "orders": {"ks": "all permutations of the 4 ODX documents + every rotation of the 8 members (identity and reversed)",
                              "somersault": "all 5040 permutations of the 7 ODX documents" if not ctx.quick else "identity, 6 rotations, reversal",
                              "somersault_modified": "identity, rotations, reversal"},
@@ -1327,7 +1408,7 @@ def replay(case: Any) -> List[Tuple[str, str]]:
         ref = load_from_members(members)
         order = member_order(names, case["perm"], case["rot"])
         try:
-            db = load_how(members, order, case["how"])
+            db = load_how(members, order, case["how"], case.get("case", ""))
             res = compare_loaded(ref, behaviour(ref), db, case["how"])
         except Exception as e:
             res = [(f"C11/entrypoint/{case['how']}/crash", f"{type(e).__name__}: {str(e)[:300]}")]
